@@ -27,7 +27,7 @@ ASSUMPTIONS = [
     "the fixpoint bound is #nodes + #values + #functions + 2 rounds (statement: bounded by the size of the model)",
     "exceptions documented by a pass count as 'input rejected'",
 ]
-BUDGET = {"quick": (16, 600), "thorough": (16, 10000)}
+BUDGET = {"quick": (16, 1200), "thorough": (16, 10000)}
 
 
 def strategy(tier, phase):
